@@ -90,22 +90,28 @@ Definition handed (n : nat) (new : list (list call)) (e : event) (p : seg) (sc :
   | _ => false
   end.
 
+(* no rule for the route code: the rule for the test id, otherwise the fallback, otherwise an error *)
+Definition by_id_or_fallback (i : input) (past : list op) (e0 : event) (so : step_obs) : bool :=
+  let n := n_sinks i in
+  match id_rules past (e_id e0) with
+  | (_ :: _) as ss =>
+      negb (s_raised so) && existsb (fun s => new_is n (only s (St e0)) (s_new so)) ss
+  | [] =>
+      match fb i with
+      | Some f => negb (s_raised so) && new_is n (only f (St e0)) (s_new so)
+      | None => s_raised so && new_is n nobody (s_new so)
+      end
+  end.
+
 Definition status_okb (i : input) (past : list op) (via : list seg) (e : event) (so : step_obs) : bool :=
   let e0 := pushed via e in                       (* what the StreamToQueue chain hands to the router *)
-  let n := n_sinks i in
-  match (match first_seg (e_route e0) with Some p => Some (p, prefix_rules past p) | None => None end) with
-  | Some (p, (_ :: _) as rs) =>
-      negb (s_raised so) && existsb (handed n (s_new so) e0 p) rs
-  | _ =>
-      match id_rules past (e_id e0) with
-      | (_ :: _) as ss =>
-          negb (s_raised so) && existsb (fun s => new_is n (only s (St e0)) (s_new so)) ss
-      | [] =>
-          match fb i with
-          | Some f => negb (s_raised so) && new_is n (only f (St e0)) (s_new so)
-          | None => s_raised so && new_is n nobody (s_new so)
-          end
+  match first_seg (e_route e0) with
+  | Some p =>
+      match prefix_rules past p with
+      | (_ :: _) as rs => negb (s_raised so) && existsb (handed (n_sinks i) (s_new so) e0 p) rs
+      | [] => by_id_or_fallback i past e0 so
       end
+  | None => by_id_or_fallback i past e0 so
   end.
 
 Definition step_okb (i : input) (past : list op) (o : op) (so : step_obs) : bool :=
@@ -209,6 +215,10 @@ Definition wf (i : input) : Prop := wfb i = true.
 Definition wf_distinctb (i : input) : bool :=
   nodupb Nat.eqb (all_sinks i) && nodupb Nat.eqb (prefix_keys (ops i)) && nodupb id_eqb (id_keys (ops i)).
 Definition wf_distinct (i : input) : Prop := wf_distinctb i = true.
+
+(* for C18_start_stop: the startTestRun/stopTestRun calls among the calls a sink received *)
+Definition is_start_stop (c : call) : bool := match c with St _ => false | _ => true end.
+Definition memb (s : sink) (l : list sink) : bool := existsb (Nat.eqb s) l.
 
 (* no finding is delimited for C18 after the F6 repair *)
 Definition findings (i : input) : list nat := [].
